@@ -58,8 +58,8 @@ pub fn script_json(s: &Script) -> serde_json::Value {
 
 pub fn run(cfg: &RunCfg) -> Ctx {
     let mut all = Ctx::new();
-    all.merge(par_cases(cfg, "loopback", cfg.n(12_000, 16 * 25_000), || (), |_, rng, ctx, i| loop_case(rng, ctx, i)));
-    all.merge(par_cases(cfg, "h2", cfg.n(500, 16 * 400), || (), |_, rng, ctx, _| h2_case(rng, ctx)));
+    all.merge(par_cases(cfg, "loopback", cfg.n(12_000, 16 * 50_000), || (), |_, rng, ctx, i| loop_case(rng, ctx, i)));
+    all.merge(par_cases(cfg, "h2", cfg.n(500, 16 * 800), || (), |_, rng, ctx, _| h2_case(rng, ctx)));
     all.floor("h2.calls_judged", 50);
     all.floor("h2.small_windows", 5);
     for sh in SHAPES {
